@@ -45,7 +45,7 @@ impl<C: Config, Q: Query> Snapshot<C, Q> {
         ) && self
             .pending_backward_projection()
             .await
-            .is_some_and(|x| x.0 == caller.timestamp())
+            .is_some_and(|x| x.0 <= caller.timestamp())
         {
             return FastPathResult::ToSlowPath(SlowPath::BaackwardProjection);
         }
